@@ -117,7 +117,7 @@ theorem prog_ccv {e : Env} {as : State} {i : Nat} {w : W} (h : Good e as i w) (h
         exact ⟨hbc, hkn⟩
       refine ⟨_, x1, ?_, hh1, hv1, hc1, hmp, hmc, ?_⟩
       · refine ⟨g0.g, ⟨rn.my, by simpa [bcast, W.emit, W.upd] using rn.lens, rn.chain, rn.height, rn.phase, rn.pidx, rn.prep,
-          rn.commit, ?_, rn.lastCv, rn.cache, rn.own⟩, ?_, h.st, h.lt⟩
+          rn.commit, ?_, rn.lastCv, rn.cache, rn.own⟩, ?_, fun b' s hp => g0.blk b' s (by simpa [bcast, W.emit, W.upd] using hp), h.st, h.lt⟩
         · intro j m' hj
           by_cases hjm : j = w.nd.my
           · subst hjm
@@ -229,7 +229,7 @@ theorem prog_checkChangeView {e : Env} {as : State} {i : Nat} {k : W → Pl → 
     · exact hv0
   obtain ⟨r1, r2, r3⟩ := reset_frame e w1.nd view w1.nd.lbTimestamp hv0
   have g3 : Good e (apply (cfgOf e) as2 (.changeView i view)) i (w1.upd fun nd => reset e nd view w1.nd.lbTimestamp) :=
-    ⟨(g1.g.ext x23), rn3, fun pl hpl => (g1.outs pl hpl).ext x23, by show (reset e w1.nd view _).bi ≠ 0; rw [r1]; exact g1.st, h.lt⟩
+    ⟨(g1.g.ext x23), rn3, fun pl hpl => (g1.outs pl hpl).ext x23, g1.blk, by show (reset e w1.nd view _).bi ≠ 0; rw [r1]; exact g1.st, h.lt⟩
   rw [initConsensus_eq]
   obtain ⟨as4, x4, g4⟩ := prog_initTail hk g3 view
   exact ⟨as4, (x1.trans x23).trans x4, g4⟩
